@@ -1,4 +1,7 @@
-use dashu_base::{EstimatedLog2, Gcd};
+use dashu_base::{
+    utils::{next_down, next_up},
+    EstimatedLog2, Gcd,
+};
 use dashu_int::{IBig, UBig};
 
 pub struct Repr {
@@ -129,8 +132,13 @@ impl EstimatedLog2 for Repr {
     }
 
     fn log2_bounds(&self) -> (f32, f32) {
+        if self.numerator.is_zero() {
+            return (f32::NEG_INFINITY, f32::NEG_INFINITY);
+        }
+
         let (n_lb, n_ub) = self.numerator.log2_bounds();
         let (d_lb, d_ub) = self.denominator.log2_bounds();
-        (n_lb - d_ub, n_ub - d_lb)
+        // the subtractions are rounded to nearest, so widen the result by one ulp
+        (next_down(n_lb - d_ub), next_up(n_ub - d_lb))
     }
 }
